@@ -1,6 +1,6 @@
 (* WrapSrc -- the executable wrapper model at the SOURCE's constants: tolerances from Gen.GenWrapTol,
    mu0 from Gen.GenConst (both regenerated from /repo on every run).  DEFINITIONS ONLY. *)
-From Coq Require Import List Bool ZArith QArith Qcanon.
+From Coq Require Import String List Bool ZArith QArith Qcanon.
 From MV Require Import Gen.GenConst Gen.GenWrapTol Model.WrapModel Model.WrapExec.
 
 #[global] Instance SrcTols : @Tols QcOps :=
@@ -34,4 +34,4 @@ Fixpoint path_atomic (writes : nat) (seen_own seen_other : bool) (p : list Strin
 Definition setters_atomic : bool :=
   forallb (path_atomic 0 false false) setter_paths_magnetization &&
   forallb (path_atomic 0 false false) setter_paths_polarization &&
-  negb (Nat.eqb (length setter_paths_magnetization) 0) && negb (Nat.eqb (length setter_paths_polarization) 0).
+  negb (Nat.eqb (List.length setter_paths_magnetization) 0) && negb (Nat.eqb (List.length setter_paths_polarization) 0).
